@@ -516,6 +516,20 @@ func ruleC10(c *Ctx, r *Report) {
 		return
 	}
 	encKey := fnFullName(enc)
+	// the ciphertext is used only where Encrypt's error was found nil (and the plaintext of
+	// Decrypt likewise): every function of the package that calls them
+	{
+		var users []*ssa.Function
+		for _, f := range c.SortedFuncs() {
+			if f == enc || f == c.Fn("Decrypt") {
+				continue
+			}
+			if hasCallTo(f, encKey) || (c.Fn("Decrypt") != nil && hasCallTo(f, fnFullName(c.Fn("Decrypt")))) {
+				users = append(users, f)
+			}
+		}
+		resultAfterErrorCheckRuleFor(c, r, users, "C10-R1", map[*ssa.Function]bool{enc: true, c.Fn("Decrypt"): true}, true)
+	}
 	var sites []*ssa.Call
 	outside := 0
 	for _, f := range c.SortedFuncs() {
